@@ -18,6 +18,11 @@ from harness import pipeline, paired, gen, trees
 from harness.core import exc_class
 
 M6 = 10 ** 6
+# finding F28 (known_findings.json): raw input outside the exact-sum domain, gene columns permuted -> results equal up
+# to rounding but NOT bitwise (np.sum over the columns in file order)
+F28 = 'F28-raw-permutation-not-bitwise-float-summation-order'
+DOMAIN_TEXT = ('row sums (x k) exactly representable in the storage dtype: < 2^24 for float32, < 2^53 for float64; '
+               'integer counts')
 # on log2(1+v): v perturbed by <= 1e-12 relative moves log2(1+v) by <= 1e-12 * v/(1+v)/ln2 < 1.45e-12
 LOG_ABS_TOL = 2e-12
 CPM_REL_TOL = Fraction(1, 10 ** 12)
@@ -221,6 +226,25 @@ def gen_sel(rng, genes):
 NORM_WIRE = {'raw': 0, 'log2CPM': 1}
 
 
+def wire_ops_of(ops):
+    return [[0] if o[0].startswith('log') else [2, o[1]] if o[0] == 'cells' else [1, o[1]] for o in ops]
+
+
+def apply_real_ops(m, ops):
+    for o in ops:
+        if o[0] == 'log_inplace':
+            m.to_log2CPM_in_place()
+        elif o[0] == 'log_new':
+            m = m.to_log2CPM()
+        elif o[0] == 'down_new':
+            m = m.downsample_genes([gname(g) for g in o[1]])
+        elif o[0] == 'cells':
+            m = m.downsample_cells(list(o[1]))
+        else:
+            m.downsample_genes_in_place([gname(g) for g in o[1]])
+    return m
+
+
 def ops_cases(ctx):
     from cell_type_mapper.cell_by_gene.cell_by_gene import CellByGeneMatrix
     rng = ctx.rng
@@ -240,31 +264,32 @@ def ops_cases(ctx):
             names = names + [77] if rng.random() < 0.5 or ng == 1 else names[:-1]   # wrong number of identifiers
         ops = []
         cur = list(names)
-        for _k in range(rng.choice([0, 1, 1, 2, 2, 3])):
-            if rng.random() < 0.45:
+        nrow_cur = len(rows)
+        for _k in range(rng.choice([0, 1, 1, 2, 2, 3, 3, 4])):
+            r_op = rng.random()
+            if r_op < 0.4:
                 ops.append([rng.choice(['log_inplace', 'log_new'])])
+            elif r_op < 0.55:
+                # downsample_cells on a matrix without cell identifiers: integer row indices (non-negative; repeats
+                # allowed; sometimes one out of range -> IndexError)
+                idx = [rng.randrange(0, max(1, nrow_cur)) for _ in range(rng.randrange(0, 4))] if nrow_cur else []
+                if rng.random() < 0.1:
+                    idx.insert(rng.randrange(len(idx) + 1), nrow_cur + rng.randrange(0, 2))
+                ops.append(['cells', idx])
+                nrow_cur = len(idx)
             else:
                 sel = gen_sel(rng, cur) if cur else []
                 ops.append([rng.choice(['down_new', 'down_inplace']), sel])
                 cur = list(sel)
         recs.append((names, rows, dt, norm, ops))
-        wire_ops = [[0] if o[0].startswith('log') else [1, o[1]] for o in ops]
-        cases.append((703, [names, rows, NORM_WIRE.get(norm, 5), wire_ops]))
+        cases.append((703, [names, rows, NORM_WIRE.get(norm, 5), wire_ops_of(ops)]))
     res = ctx.model(cases)
     for (names, rows, dt, norm, ops), r in zip(recs, res):
         arr = np.array(rows, dtype=dt)
         m = None
         try:
             m = CellByGeneMatrix(data=arr.copy(), gene_identifiers=[gname(g) for g in names], normalization=norm)
-            for o in ops:
-                if o[0] == 'log_inplace':
-                    m.to_log2CPM_in_place()
-                elif o[0] == 'log_new':
-                    m = m.to_log2CPM()
-                elif o[0] == 'down_new':
-                    m = m.downsample_genes([gname(g) for g in o[1]])
-                else:
-                    m.downsample_genes_in_place([gname(g) for g in o[1]])
+            m = apply_real_ops(m, ops)
             obs = ('ok',)
         except Exception as e:       # noqa
             obs = ('err', err_code(e), f'{exc_class(e)}: {e}'[:160])
@@ -303,7 +328,22 @@ def ops_cases(ctx):
                     bad = f'data shape {data.shape} vs model {(len(md), len(mg))}'
                 else:
                     bits = bits_of(dt)
-                    for i, row in enumerate(rows):
+                    # the rows of the final matrix, as (row restricted to the genes it had when it was normalised):
+                    # replay the selections on the integer rows
+                    cur_rows, cur_genes, norm_rows = [list(r_) for r_ in rows], list(names), None
+                    for o in ops:
+                        if o[0].startswith('log'):
+                            norm_rows = [list(r_) for r_ in cur_rows]
+                        elif o[0] == 'cells':
+                            cur_rows = [cur_rows[i_] for i_ in o[1]]
+                            if norm_rows is not None:
+                                norm_rows = [norm_rows[i_] for i_ in o[1]]
+                        else:
+                            cols = [cur_genes.index(g) for g in o[1]]
+                            cur_genes = list(o[1])
+                            if norm_rows is None:
+                                cur_rows = [[r_[c_] for c_ in cols] for r_ in cur_rows]
+                    for i, row in enumerate(norm_rows if normalised else cur_rows):
                         ex = row_is_exact(row, bits)
                         if normalised:
                             ctx.dist('log2cpm_stream', f'exact-equality({np.dtype(dt).name})' if ex else 'general-abs-2e-12')
@@ -325,9 +365,17 @@ def ops_cases(ctx):
         # gene subset
         if obs[0] == 'ok' and normalised:
             first_log = next(i for i, o in enumerate(ops) if o[0].startswith('log'))
-            if any(o[0].startswith('down') for o in ops[:first_log]):
-                desc['class'] = 'c07-normalised-after-downsampling'
-                ctx.violation('a matrix down-selected by gene was normalised (CPM over a subset of genes)', desc)
+            downs = [i for i, o in enumerate(ops[:first_log]) if o[0].startswith('down')]
+            if downs:
+                if any(o[0] == 'cells' for o in ops[downs[-1] + 1:first_log]):
+                    # OBSERVATION (audit 3, A13), not a finding: downsample_cells builds a new matrix through the
+                    # constructor and the _genes_downsampled flag is not carried over (the model does the same:
+                    # Normalize.downsample_cells_idx); no caller in the mapping pipeline normalises after it
+                    ctx.extra['guard_lost_via_downsample_cells'] = ctx.extra.get('guard_lost_via_downsample_cells', 0) + 1
+                    ctx.dist('guard', 'lost through downsample_cells (observation)')
+                else:
+                    desc['class'] = 'c07-normalised-after-downsampling'
+                    ctx.violation('a matrix down-selected by gene was normalised (CPM over a subset of genes)', desc)
         if guard:
             ctx.sample({k: desc[k] for k in ('kind', 'genes', 'rows', 'ops', 'model', 'impl')}, limit=8)
 
@@ -623,11 +671,164 @@ def prepare_cases(ctx):
                     ctx.violation(f'adding/removing non-marker genes changed the prepared query: {diff}', dd)
 
 
+# ------------------------------------------------------------------ stream D: OUTSIDE the exact-sum domain
+def big32_rows(rng, n_rows, ng):
+    """integer counts, exactly representable in float32 (< 2^24 each), whose row sums exceed 2^24"""
+    rows = []
+    for _ in range(n_rows):
+        while True:
+            row = [rng.randrange(0, 2 ** 24) if rng.random() < 0.8 else rng.randrange(0, 50) for _ in range(ng)]
+            if sum(row) > 2 ** 24 + 2 ** 20:
+                break
+        rows.append(row)
+    return rows
+
+
+def real_log2cpm(arr, names):
+    from cell_type_mapper.cell_by_gene.cell_by_gene import CellByGeneMatrix
+    m = CellByGeneMatrix(data=arr.copy(), gene_identifiers=list(names), normalization='raw')
+    m.to_log2CPM_in_place()
+    return np.asarray(m.data)
+
+
+def outside_domain_fn(ctx):
+    """The inputs the exact model does NOT describe (audit 3, A3), fed to the real to_log2CPM_in_place, and the
+    property's clauses evaluated there:
+      (a) float32 integer counts with row sums > 2^24, each cell times an integer: scale clause -- a rounding-level
+          change is allowed by the property (counted); anything larger is a violation;
+      (b) float64 NON-integer raw values, gene columns permuted;  (c) float32 counts with row sums > 2^24, permuted:
+          the permutation clause says 'bitwise unchanged' -- a rounding-level difference is finding F28 (known), anything
+          larger is a violation of its own class."""
+    rng = ctx.rng
+    for k in range(ctx.n(40, 600)):
+        ng = rng.choice([3, 4, 6, 9, 12, 20, 40])
+        nrow = rng.randrange(1, 6)
+        names = [gname(g) for g in range(ng)]
+        kind = 'abc'[k % 3]
+        ctx.count(('outside', kind, k), nontrivial=True)
+        if kind == 'a':
+            rows = big32_rows(rng, nrow, ng)
+            arr = np.array(rows, dtype=np.float32)
+            assert (arr.astype(np.float64) == np.array(rows, dtype=np.float64)).all()
+            facs = [rng.choice([3, 5, 7, 101, 999]) for _ in range(nrow)]
+            scaled = arr * np.array(facs, dtype=np.float32).reshape(nrow, 1)
+            a, b = real_log2cpm(arr, names), real_log2cpm(scaled, names)
+            nd = int((a != b).sum())
+            md = float(np.abs(a.astype(np.float64) - b.astype(np.float64)).max())
+            ctx.dist('outside_domain', 'a float32 sum>2^24 x integer: ' + ('bitwise equal' if nd == 0 else 'rounding-level change (allowed)'))
+            if nd:
+                ctx.extra['outside_scale_rounding_level_changes'] = ctx.extra.get('outside_scale_rounding_level_changes', 0) + 1
+            desc = {'kind': 'outside-domain', 'relation': 'scale-integer-float32-big', 'rows': rows, 'factors': facs,
+                    'dtype': 'float32', 'max_abs_delta_log2cpm': md}
+            if md > 1e-5:
+                desc['class'] = 'c07-outside-domain-scale-beyond-rounding'
+                ctx.violation(f'float32 counts times an integer changed log2CPM by {md} (more than rounding)', desc)
+            # the model (exact) is still what the float code approximates: single-precision tolerance
+            mod = ctx.model([(701, rows)])[0]
+            ref = np.array([[np.log2(1.0 + float(frac_of(x))) for x in r] for r in mod[1]])
+            if np.abs(a.astype(np.float64) - ref).max() > 1e-5:
+                desc['class'] = 'corr:Normalize.cpm_row'
+                ctx.violation('float32 log2CPM is not within 1e-5 of the exact model outside the domain', desc, no_input=True)
+            continue
+        if kind == 'b':
+            arr = np.array([[rng.random() * 40.0 if rng.random() < 0.8 else 0.0 for _ in range(ng)] for _ in range(nrow)])
+            dtn = 'float64'
+            tol = 1e-12
+        else:
+            rows = big32_rows(rng, nrow, ng)
+            arr = np.array(rows, dtype=np.float32)
+            dtn = 'float32'
+            tol = 1e-5
+        perm = list(range(ng))
+        rng.shuffle(perm)
+        a = real_log2cpm(arr, names)
+        b = real_log2cpm(arr[:, perm], [names[j] for j in perm])
+        nd = int((a[:, perm] != b).sum())
+        md = float(np.abs(a[:, perm].astype(np.float64) - b.astype(np.float64)).max())
+        ctx.dist('outside_domain', f'{kind} {dtn} {"non-integer raw" if kind == "b" else "sum>2^24"} permuted: '
+                 + ('bitwise equal' if nd == 0 else 'NOT bitwise equal (F28)'))
+        if nd:
+            desc = {'kind': 'outside-domain', 'relation': 'gene-permutation', 'stream': kind, 'dtype': dtn,
+                    'raw': arr.tolist(), 'perm': perm, 'entries_not_bitwise_equal': nd, 'max_abs_delta_log2cpm': md,
+                    'class': F28 if md <= tol else 'c07-outside-domain-permutation-beyond-rounding'}
+            ctx.violation(f'to_log2CPM_in_place after permuting the gene columns of {dtn} raw data: {nd} entries not bitwise '
+                          f'equal (max |delta| {md})', desc)
+
+
+def outside_domain_runs(ctx):
+    """(b), (c) through the REAL run_mapping, bootstrap factor 1: gene columns of raw data permuted with their names."""
+    rng = ctx.rng
+    for k in range(ctx.n(6, 60)):
+        sc = pipeline.gen_scenario(rng, max_levels=3, max_leaves=6, n_cells=rng.randrange(6, 13))
+        ncell, ng = len(sc.cell_ids), len(sc.query_genes)
+        kind = 'bc'[k % 2] if k % 3 else 'b'
+        if kind == 'b':
+            raw = np.array([[rng.random() * 40.0 if rng.random() < 0.8 else 0.0 for _ in range(ng)] for _ in range(ncell)])
+            dtn = 'float64'
+        else:
+            raw = np.array(big32_rows(rng, ncell, ng), dtype=np.float32)
+            dtn = 'float32'
+        v = paired.base_var(rng, sc, factor=1.0)
+        perm = list(range(ng))
+        rng.shuffle(perm)
+        ctx.count(('outside-run', k, kind), nontrivial=True)
+        ra = paired.run_once(ctx, sc, f'oa{k}', query=raw, normalization='raw', **v)
+        rb = paired.run_once(ctx, sc, f'ob{k}', query=raw[:, perm], genes=[sc.query_genes[j] for j in perm],
+                             normalization='raw', **v)
+        desc = {'kind': 'paired-run', 'relation': 'gene-permutation-outside-domain', 'stream': kind, 'dtype': dtn,
+                'tree': sc.tree.data, 'markers': sc.markers, 'cell_ids': sc.cell_ids, 'raw': raw.tolist(), 'perm': perm,
+                'query_genes': sc.query_genes, 'ref_genes': sc.ref_genes,
+                'means': {str(a): b for a, b in sc.means.items()}, 'config': v}
+        if not ra['ok'] or not rb['ok']:
+            desc['class'] = 'c07-run-raises'
+            desc['error'] = ra['error'] or rb['error']
+            ctx.violation(f'gene-permutation-outside-domain: a run raised {desc["error"]}', desc)
+            continue
+        a, b = paired.by_cell(ra), paired.by_cell(rb)
+        n_vals = n_bits = 0
+        worst = 0.0
+        other = None
+        for j, cid in enumerate(sc.cell_ids):
+            # everything but the correlations must be identical (a near-tie vote may flip: excused as elsewhere);
+            # correlations within rounding: 1e-9 (float64 data) / 1e-4 (float32 data)
+            diff = paired.compare_records(a[cid], b[cid], sc.tree.levels, tol=1e-9 if kind == 'b' else 1e-4, bitwise=False)
+            if diff:
+                if paired.near_tie_cell(sc, ra['output'], raw[j].astype(np.float64), sc.query_genes, 'raw'):
+                    ctx.extra['near_ties_excused'] = ctx.extra.get('near_ties_excused', 0) + 1
+                    continue
+                other = f'cell {cid}: {diff}'
+                break
+            for lv in sc.tree.levels:
+                x, y = a[cid].get(lv), b[cid].get(lv)
+                if x is None:
+                    continue
+                cx = [x['avg_correlation']] + list(x.get('runner_up_correlation', []))
+                cy = [y['avg_correlation']] + list(y.get('runner_up_correlation', []))
+                for u, w in zip(cx, cy):
+                    n_vals += 1
+                    if u != w:
+                        n_bits += 1
+                        worst = max(worst, abs(u - w))
+        if other:
+            ctx.disagreements_checked += 1
+            desc['class'] = 'c07-gene-permutation-outside-domain-beyond-rounding'
+            ctx.violation(f'permuting the gene columns of {dtn} raw data changed the mapping beyond rounding: {other}', desc)
+            continue
+        ctx.dist('outside_domain_runs', f'{kind} {dtn}: ' + ('all correlations bitwise equal' if n_bits == 0 else
+                                                             'correlations NOT bitwise equal, assignments equal (F28)'))
+        if n_bits:
+            ctx.disagreements_checked += 1
+            desc.update({'class': F28, 'correlations_compared': n_vals, 'not_bitwise_equal': n_bits, 'max_abs_delta': worst})
+            ctx.violation(f'run_mapping on {dtn} raw data with permuted gene columns: {n_bits}/{n_vals} correlation values not '
+                          f'bitwise equal (max |delta| {worst}), assignments and probabilities equal', desc)
+
+
 def model_tie(ctx):
     cpm_cases(ctx)
     make_cases(ctx)
     ops_cases(ctx)
     prepare_cases(ctx)
+    outside_domain_fn(ctx)
 
 
 TIE_RULE = (
@@ -641,13 +842,30 @@ TIE_RULE = (
     'log2cpm_stream); write_query_markers_to_h5 + is_data_ge_zero + AnnDataRowIterator + the CellByGeneMatrix lines of '
     'run_type_assignment_on_h5ad_cpu + assemble_query_data vs marker_cache / has_negative / prepare_query on random trees (<=3 '
     'levels; dense/csr/csc; chunked), each followed by function-level BITWISE relations on the implementation (gene permutation, '
-    'raw vs declared-normalised, extra genes, integer counts times a positive integer per cell).  non-trivial = cpm row with >=2 genes and positive sum / operation sequence that '
+    'raw vs declared-normalised, extra genes, integer counts times a positive integer per cell); OUTSIDE-DOMAIN stream on the real '
+    'to_log2CPM_in_place and the real run_mapping (float32 sums > 2^24 scaled / permuted, float64 non-integer raw permuted): '
+    'scale = rounding-level change allowed and counted, permutation not bitwise = known finding F28, beyond rounding = violation.  non-trivial = cpm row with >=2 genes and positive sum / operation sequence that '
     'normalises and down-selects or trips the guard / prepare case with >=2 parents and a parent with >=2 markers.  ')
 
 
 def run(ctx):
     ctx.assumptions += [
-        'model tie: counts are integers (the model rows are Z); float32 inputs only where the computation is exact in 24 bits',
+        'DOMAIN of the exact model and of theorems (1) scale and (3) gene permutation (raw half): ' + DOMAIN_TEXT +
+        '.  The real convert_to_cpm sums each row with np.sum in the storage dtype and in column order; outside this domain '
+        'the inputs are GENERATED in a separate stream (outside_domain_fn / outside_domain_runs: (a) float32 integer counts '
+        'with row sums > 2^24 times an integer, (b) float64 non-integer raw values with permuted gene columns, (c) float32 '
+        'counts with row sums > 2^24 permuted) and the property clauses are evaluated on the real code there: a '
+        'rounding-level change under scaling is allowed by the property and counted '
+        '(outside_scale_rounding_level_changes); a result that is not bitwise equal after a column permutation contradicts '
+        'the property text and is reported through the class of known finding F28; any difference beyond rounding, any '
+        'changed assignment (near ties excused) is a violation',
+        'model tie: counts are integers (the model rows are Z); float32 inputs in the exact / 1e-12 streams only where the '
+        'computation is exact in 24 bits (the outside-domain stream compares float32 with the model at 1e-5)',
+        'CellByGeneMatrix operation sequences include downsample_cells with non-negative integer row indices on matrices '
+        'without cell identifiers (negative indices, which numpy wraps, are not generated); OBSERVATION, not a finding: '
+        'downsample_cells builds a new matrix and drops the _genes_downsampled flag, so downsample_genes -> downsample_cells '
+        '-> to_log2CPM is accepted by the real code and by the model alike (counted: guard_lost_via_downsample_cells); no '
+        'caller in the mapping pipeline does this',
         'model tie: log2(1+.) is not modelled: the model returns the exact CPM value and the harness applies numpy.log2(1+.) to it',
         'model tie: the three CellByGeneMatrix lines of election.run_type_assignment_on_h5ad_cpu are replicated by the harness '
         '(real_prepare); the real lines themselves run in the paired run_mapping runs',
@@ -657,6 +875,7 @@ def run(ctx):
     ]
     model_tie(ctx)
     paired_runs(ctx)
+    outside_domain_runs(ctx)
 
 
 def paired_runs(ctx):
@@ -670,7 +889,8 @@ def paired_runs(ctx):
                 'any factor); (d) for normalised input, extra non-marker / non-reference genes added or removed (bitwise, any '
                 'factor); (e) one negative raw value => the run is rejected; non-trivial = a pair of runs on a tree with a '
                 'real choice')
-    ctx.assumptions += ['integer counts are used so that row sums are exact in binary64 and permutation is bitwise-neutral']
+    ctx.assumptions += ['paired runs (a)-(e): integer counts are used so that row sums are exact in binary64 and permutation is '
+                        'bitwise-neutral (' + DOMAIN_TEXT + '); the complementary inputs are in outside_domain_runs']
     ctx.assumptions += [
         'scale relation: the Coq theorems (c07_scale_invariant, c07_scale_invariant_rational(_matrix), *_vote) are over integer '
         'raw counts (Z) and integer factors, or a rational factor b/a between two integer matrices; the real code takes any '
@@ -682,7 +902,7 @@ def paired_runs(ctx):
         'under a change of count scale, quantified at bootstrap factor 1 for the relations that perturb floating-point '
         'values) does not forbid and this check does not claim to be bitwise: those pairs are compared at bootstrap '
         'factor 1 with tolerance 1e-9 on the reported numbers and the same assignments, a flipped near-tie vote being '
-        'excused and counted (near_ties_excused); non-integer RAW values are not generated',
+        'excused and counted (near_ties_excused); non-integer RAW values are generated only in the outside-domain streams',
     ]
     n = ctx.n(10, 150)
     for k in range(n):
@@ -855,20 +1075,11 @@ def replay(ctx, rec):
     if kind == 'CellByGeneMatrix-ops':
         from cell_type_mapper.cell_by_gene.cell_by_gene import CellByGeneMatrix
         ops = rec['ops']
-        wire_ops = [[0] if o[0].startswith('log') else [1, o[1]] for o in ops]
-        mod = ctx.model([(703, [rec['genes'], rec['rows'], NORM_WIRE.get(rec['normalization'], 5), wire_ops])])[0]
+        mod = ctx.model([(703, [rec['genes'], rec['rows'], NORM_WIRE.get(rec['normalization'], 5), wire_ops_of(ops)])])[0]
         try:
             m = CellByGeneMatrix(data=np.array(rec['rows'], dtype=np.dtype(rec['dtype'])),
                                  gene_identifiers=[gname(g) for g in rec['genes']], normalization=rec['normalization'])
-            for o in ops:
-                if o[0] == 'log_inplace':
-                    m.to_log2CPM_in_place()
-                elif o[0] == 'log_new':
-                    m = m.to_log2CPM()
-                elif o[0] == 'down_new':
-                    m = m.downsample_genes([gname(g) for g in o[1]])
-                else:
-                    m.downsample_genes_in_place([gname(g) for g in o[1]])
+            m = apply_real_ops(m, ops)
             print('implementation: genes', m.gene_identifiers, 'normalization', m.normalization, 'downsampled',
                   m._genes_downsampled, 'data', np.asarray(m.data).tolist())
             impl_ok = True
@@ -893,6 +1104,17 @@ def replay(ctx, rec):
         print('implementation:', obs[1:] if obs[0] == 'err' else [[g, [x.tolist() for x in dd]] for g, dd in obs[2]])
         print('model:', mod, '(raw input: exact CPM values num/den, log2(1+.) applied by the harness)')
         return 0 if (obs[0] == 'ok') == (mod[0] == 0) else 1
+    if kind == 'outside-domain' and rec.get('relation') == 'gene-permutation':
+        arr = np.array(rec['raw'], dtype=np.dtype(rec['dtype']))
+        perm = rec['perm']
+        names = [gname(g) for g in range(arr.shape[1])]
+        a = real_log2cpm(arr, names)
+        b = real_log2cpm(arr[:, perm], [names[j] for j in perm])
+        nd = int((a[:, perm] != b).sum())
+        print(f'to_log2CPM_in_place on the raw matrix and on its column permutation {perm}: {nd} entries not bitwise equal, '
+              f'max |delta| {float(np.abs(a[:, perm].astype(np.float64) - b.astype(np.float64)).max())!r}')
+        print('row sums in file order:', arr.sum(axis=1).tolist(), ' permuted:', arr[:, perm].sum(axis=1).tolist())
+        return 1 if nd else 0
     print('paired real runs are replayed by re-running the two configurations printed above through '
           'harness.paired.run_once (tree, markers, raw matrix and both configurations are in the record)')
     return 0
